@@ -9,12 +9,9 @@ from toolworld import tw
 
 
 def selftest(sim, n=32, seed=777, verbose=True):
-    import importlib.util
-    spec_ = importlib.util.spec_from_file_location("c20mod", os.path.join(tw.VERIF, "checks", "C20.py"))
-    # the C20 workload generator is reused without running its main()
-    src = open(spec_.origin).read().replace("main_guard(main)", "")
-    mod = {"__name__": "c20mod", "__file__": spec_.origin}
-    exec(compile(src, spec_.origin, "exec"), mod)
+    import importlib
+    # the C20 workload generator is reused (importing the check does not run it)
+    mod = vars(importlib.import_module("checks.C20"))
     bad = []
 
     def one(i):
